@@ -499,8 +499,6 @@ func (f *Flooder) AnnounceLocalRoutes() {
 	localDomainRoutes := f.routeMgr.GetLocalDomainRoutes()
 	localForwardRoutes := f.routeMgr.GetLocalForwardRoutes()
 
-	seq := f.routeMgr.IncrementSequence()
-
 	// Convert to protocol routes (CIDR + domain + forward + agent presence)
 	routes := make([]protocol.Route, 0, len(localRoutes)+len(localDomainRoutes)+len(localForwardRoutes)+1)
 
@@ -558,32 +556,46 @@ func (f *Flooder) AnnounceLocalRoutes() {
 		displayName = ""
 	}
 
-	// Build advertisement
-	adv := &protocol.RouteAdvertise{
-		OriginAgent:       f.localID,
-		OriginDisplayName: displayName,
-		Sequence:          seq,
-		Routes:            routes,
-		Path:              path,    // Keep for backwards compat
-		EncPath:           encPath, // Encrypted path for wire format
-		SeenBy:            []identity.AgentID{f.localID},
-	}
+	// The route count travels in one byte, so a larger set goes out as several
+	// advertisements, each under its own sequence number.
+	for start := 0; start < len(routes); start += maxRoutesPerMessage {
+		end := start + maxRoutesPerMessage
+		if end > len(routes) {
+			end = len(routes)
+		}
+		chunk := routes[start:end]
 
-	frame := &protocol.Frame{
-		Type:     protocol.FrameRouteAdvertise,
-		StreamID: protocol.ControlStreamID,
-		Payload:  adv.Encode(),
-	}
+		// Build advertisement
+		adv := &protocol.RouteAdvertise{
+			OriginAgent:       f.localID,
+			OriginDisplayName: displayName,
+			Sequence:          f.routeMgr.IncrementSequence(),
+			Routes:            chunk,
+			Path:              path,    // Keep for backwards compat
+			EncPath:           encPath, // Encrypted path for wire format
+			SeenBy:            []identity.AgentID{f.localID},
+		}
 
-	// Send to all peers
-	for _, peerID := range f.sender.GetPeerIDs() {
-		if err := f.sender.SendToPeer(peerID, frame); err != nil {
-			f.logger.Debug("failed to announce local routes",
-				logging.KeyPeerID, peerID.ShortString(),
-				logging.KeyError, err)
+		frame := &protocol.Frame{
+			Type:     protocol.FrameRouteAdvertise,
+			StreamID: protocol.ControlStreamID,
+			Payload:  adv.Encode(),
+		}
+
+		// Send to all peers
+		for _, peerID := range f.sender.GetPeerIDs() {
+			if err := f.sender.SendToPeer(peerID, frame); err != nil {
+				f.logger.Debug("failed to announce local routes",
+					logging.KeyPeerID, peerID.ShortString(),
+					logging.KeyError, err)
+			}
 		}
 	}
 }
+
+// maxRoutesPerMessage is the largest number of routes one ROUTE_ADVERTISE or
+// ROUTE_WITHDRAW payload can carry: the count is a single byte on the wire.
+const maxRoutesPerMessage = 255
 
 // WithdrawLocalRoutes floods withdrawal of all local routes.
 func (f *Flooder) WithdrawLocalRoutes() {
@@ -592,31 +604,37 @@ func (f *Flooder) WithdrawLocalRoutes() {
 		return
 	}
 
-	seq := f.routeMgr.IncrementSequence()
-
 	routes := make([]protocol.Route, 0, len(localRoutes))
 	for _, lr := range localRoutes {
 		routes = append(routes, ipNetToProtocolRoute(lr.Network, lr.Metric))
 	}
 
-	withdraw := &protocol.RouteWithdraw{
-		OriginAgent: f.localID,
-		Sequence:    seq,
-		Routes:      routes,
-		SeenBy:      []identity.AgentID{f.localID},
-	}
+	for start := 0; start < len(routes); start += maxRoutesPerMessage {
+		end := start + maxRoutesPerMessage
+		if end > len(routes) {
+			end = len(routes)
+		}
+		chunk := routes[start:end]
 
-	frame := &protocol.Frame{
-		Type:     protocol.FrameRouteWithdraw,
-		StreamID: protocol.ControlStreamID,
-		Payload:  withdraw.Encode(),
-	}
+		withdraw := &protocol.RouteWithdraw{
+			OriginAgent: f.localID,
+			Sequence:    f.routeMgr.IncrementSequence(),
+			Routes:      chunk,
+			SeenBy:      []identity.AgentID{f.localID},
+		}
 
-	for _, peerID := range f.sender.GetPeerIDs() {
-		if err := f.sender.SendToPeer(peerID, frame); err != nil {
-			f.logger.Debug("failed to withdraw local routes",
-				logging.KeyPeerID, peerID.ShortString(),
-				logging.KeyError, err)
+		frame := &protocol.Frame{
+			Type:     protocol.FrameRouteWithdraw,
+			StreamID: protocol.ControlStreamID,
+			Payload:  withdraw.Encode(),
+		}
+
+		for _, peerID := range f.sender.GetPeerIDs() {
+			if err := f.sender.SendToPeer(peerID, frame); err != nil {
+				f.logger.Debug("failed to withdraw local routes",
+					logging.KeyPeerID, peerID.ShortString(),
+					logging.KeyError, err)
+			}
 		}
 	}
 }
@@ -687,8 +705,6 @@ func (f *Flooder) SendFullTable(peerID identity.AgentID) {
 
 	// Send a separate advertisement for each origin
 	for originAgent := range allOrigins {
-		seq := f.routeMgr.IncrementSequence()
-
 		cidrRoutes := byOrigin[originAgent]
 		agentPresenceRoutes := agentByOrigin[originAgent]
 		forwardOriginRoutes := forwardByOrigin[originAgent]
@@ -755,25 +771,34 @@ func (f *Flooder) SendFullTable(peerID identity.AgentID) {
 			}
 		}
 
-		adv := &protocol.RouteAdvertise{
-			OriginAgent:       originAgent,
-			OriginDisplayName: originDisplayName,
-			Sequence:          seq,
-			Routes:            routes,
-			Path:              path,
-			SeenBy:            []identity.AgentID{f.localID},
-		}
+		// One advertisement per group of routes that fits the one-byte count
+		for start := 0; start < len(routes); start += maxRoutesPerMessage {
+			end := start + maxRoutesPerMessage
+			if end > len(routes) {
+				end = len(routes)
+			}
+			chunk := routes[start:end]
 
-		frame := &protocol.Frame{
-			Type:     protocol.FrameRouteAdvertise,
-			StreamID: protocol.ControlStreamID,
-			Payload:  adv.Encode(),
-		}
+			adv := &protocol.RouteAdvertise{
+				OriginAgent:       originAgent,
+				OriginDisplayName: originDisplayName,
+				Sequence:          f.routeMgr.IncrementSequence(),
+				Routes:            chunk,
+				Path:              path,
+				SeenBy:            []identity.AgentID{f.localID},
+			}
 
-		if err := f.sender.SendToPeer(peerID, frame); err != nil {
-			f.logger.Debug("failed to send full routing table",
-				logging.KeyPeerID, peerID.ShortString(),
-				logging.KeyError, err)
+			frame := &protocol.Frame{
+				Type:     protocol.FrameRouteAdvertise,
+				StreamID: protocol.ControlStreamID,
+				Payload:  adv.Encode(),
+			}
+
+			if err := f.sender.SendToPeer(peerID, frame); err != nil {
+				f.logger.Debug("failed to send full routing table",
+					logging.KeyPeerID, peerID.ShortString(),
+					logging.KeyError, err)
+			}
 		}
 	}
 }
